@@ -248,6 +248,9 @@ class StmtMixin:
             s.value._elt_hint = t.elt
         if isinstance(s.value, ast.Dict) and not s.value.keys and isinstance(t, TDict):
             s.value._hint = t
+        if (isinstance(s.value, ast.Call) and isinstance(s.value.func, ast.Name) and s.value.func.id == "set"
+                and not s.value.args and isinstance(t, TSet)):
+            s.value._hint = t
         if isinstance(s.value, ast.ListComp):
             # element type of the comprehension: the sidecar's field declaration wins over the annotation
             ht = t
@@ -646,6 +649,23 @@ class StmtMixin:
                 raise Unsupported("iteration over an untyped empty list")
             th = theory_of(it.t)
             return th, self.list_content(st, it), it.t.elt, None
+        if isinstance(it.t, TSet):
+            # snapshot enumeration of a set in an arbitrary order: duplicate-free sequence covering the domain
+            th = seq_theory(it.t.elt)
+            es = sort_of(it.t.elt)
+            items = z3.Const(fresh_name("setitems"), th.S)
+            dom = self.set_dom(st, it)
+            k = z3.Int(fresh_name("k"))
+            x = z3.Const(fresh_name("x"), es)
+            pos = prelude().func("setpos!" + fresh_name("f"), es, z3.IntSort())
+            st.pc.append(z3.ForAll([k], z3.Implies(z3.And(0 <= k, k < th.Len(items)),
+                                                   z3.And(z3.Select(dom, th.Idx(items, k)), pos(th.Idx(items, k)) == k)),
+                                   patterns=[th.Idx(items, k)]))
+            st.pc.append(z3.ForAll([x], z3.Implies(z3.Select(dom, x),
+                                                   z3.And(0 <= pos(x), pos(x) < th.Len(items), th.Idx(items, pos(x)) == x)),
+                                   patterns=[z3.Select(dom, x)]))
+            st.pc.append(th.Len(items) == self.set_size(st, it))
+            return th, items, it.t.elt, None
         if isinstance(it.t, TPy) and it.z[0] == "enumerate":
             th, seq, elt, post = self.iter_sequence(it.z[1], st, node)
             start = it.z[2]
